@@ -243,6 +243,22 @@ def run_case(case):
     data, y, w, kw, wmode = make(case)
     COL.sample({"family": case["family"], "kw": kw, "weights": wmode, "y": y is not None, "n": int(data.size),
                 "data_head": data[:6].tolist()})
+    # one case in three hands the arrays over as non-contiguous float64 views (every other element / a record field)
+    lr = np.random.default_rng([case["sub"], 14])
+    if lr.random() < .33:
+        def view(a, k):
+            if a is None:
+                return None
+            a = np.asarray(a, dtype="f8")
+            if k == 0:
+                big = np.full(a.size * 2, -3.5)
+                big[::2] = a
+                return big[::2]
+            rec = np.zeros(a.size, dtype=[("i", "i2"), ("v", "f8")])
+            rec["v"] = a
+            return rec["v"]
+        kk = int(lr.integers(0, 2))
+        data, y, w = view(data, kk), view(y, kk), view(w, kk)
     route = case["sub"] % 3
     if route == 0 or y is not None:
         b = st.Binner(data, y=y, weights=w)
